@@ -14,7 +14,13 @@ func (s *syntaxSlicePositiveStepSubscript) getIndexes(srcLength int) []int {
 
 	index, result := 0, make([]int, srcLength)
 	if s.step.number > 0 {
-		for i := loopStart; i < loopEnd; i += s.step.number {
+		// A step beyond the array length selects the same single element;
+		// clamping it keeps the loop variable from overflowing.
+		step := s.step.number
+		if step > srcLength {
+			step = srcLength
+		}
+		for i := loopStart; i < loopEnd; i += step {
 			result[index] = i
 			index++
 		}
